@@ -13,7 +13,7 @@ mod verif_codecs {
     use std::{vec, vec::Vec};
 
     // ------------------------------------------------------------------ C10
-    //@defaults unit=U10.2 props=C10,C20 tier=quick level=bounded bound="2 deltas, each over the full i32 range (forces zero / 8 / 16 / 32-bit run selection and run merging)" timeout=900
+    //@defaults unit=U10.2 props=C10 tier=quick level=bounded bound="2 deltas, each over the full i32 range (forces zero / 8 / 16 / 32-bit run selection and run merging)" timeout=900
     //@harness fns=PackedDeltas::write_into,PackedDeltas::iter_runs,PackedDeltaRun::write_into,read_fonts::PackedDeltas::iter,DeltaRunIter::next
     #[kani::proof]
     #[kani::unwind(7)]
@@ -71,7 +71,7 @@ mod verif_codecs {
     }
 
     // ------------------------------------------------------------------ C09
-    //@defaults unit=U09.4 props=C09,C20 tier=quick level=bounded bound="one contour of 1 point, every i16 coordinate pair, on-curve flag symbolic" timeout=900
+    //@defaults unit=U09.4 props=C09 tier=quick level=bounded bound="one contour of 1 point, every i16 coordinate pair, on-curve flag symbolic" timeout=900
     //@harness fns=SimpleGlyph::write_into,SimpleGlyph::compute_point_deltas,flag_and_delta,RepeatableFlag::iter_from_flags,read_fonts::SimpleGlyph::points,read_fonts::SimpleGlyph::read_points_fast note="the first point's delta is its coordinate, so every i16 delta value (skip / short +- / long encodings and their boundaries) is exercised on both axes"
     #[kani::proof]
     #[kani::unwind(6)]
@@ -110,7 +110,7 @@ mod verif_codecs {
         kani::cover!(x0 == 255 && y0 == 0);
         kani::cover!(y0 == i16::MIN);
     }
-    //@defaults unit=U09.4 props=C09,C20 tier=thorough level=bounded bound="one contour of 2 points, every coordinate pair whose deltas fit i16, on-curve flags symbolic" timeout=2400
+    //@defaults unit=U09.4 props=C09 tier=thorough level=bounded bound="one contour of 2 points, every coordinate pair whose deltas fit i16, on-curve flags symbolic" timeout=2400
     //@harness fns=SimpleGlyph::write_into,SimpleGlyph::compute_point_deltas,flag_and_delta,RepeatableFlag::iter_from_flags,read_fonts::SimpleGlyph::points,read_fonts::SimpleGlyph::read_points_fast
     #[kani::proof]
     #[kani::unwind(8)]
